@@ -4,7 +4,7 @@ EXTENDS Conc, Json
 RECURSIVE SeqsUpTo(_, _)
 SeqsUpTo(A, n) == IF n = 0 THEN {<<>>} ELSE LET S == SeqsUpTo(A, n - 1) IN S \cup {Append(s, a) : s \in S, a \in A}
 Drops == <<"drop", "drop", "drop">>          \* every thread ends by dropping whatever it still holds
-OpsQ == {"clone", "read", "push", "reserve", "clear", "shrink", "drop", "trunc"}
+OpsQ == {"clone", "read", "push", "reserve", "clear", "shrink", "drop", "trunc", "rm"}
 OpsB == {"readb", "cloneb", "push", "read"}
 \* 2 threads, one owned handle each
 Own2(T2, L) == {[progs |-> [t \in T |-> IF t = 1 THEN p \o Drops ELSE q \o Drops], own0 |-> [t \in T |-> 1], borrowers |-> {}]
